@@ -837,8 +837,13 @@ func (r *RegisteredDecoys) removeOldRegistrations(logger *log.Logger) (int, int)
 	var expiredRegTimeoutIndices = r.getExpiredRegistrations()
 	verifhook.Yield("sweep:after-scan")
 
+	// the map is shared with the ingest workers: read its size under the lock
+	r.m.RLock()
+	timeoutCount := len(r.decoysTimeouts)
+	r.m.RUnlock()
+
 	logger.Debugf("cleansing registrations - registrations: %d, timeouts: %d, expired: %d",
-		r.TotalRegistrations(), len(r.decoysTimeouts), len(expiredRegTimeoutIndices))
+		r.TotalRegistrations(), timeoutCount, len(expiredRegTimeoutIndices))
 
 	expiredValid := 0
 	for _, idx := range expiredRegTimeoutIndices {
